@@ -14,7 +14,7 @@ Clause labels (sentence of the property each one stands for):
   class_identity        "the same exception class": type(caught) reports the original's
                         __name__ / __qualname__ / __module__
   traceback             "carrying the original traceback": the original's traceback
-                        entries are a suffix of the caught one's, ending at the raise site
+                        entries are a suffix of the caught one's, which ends at the raise site
   attr_equal            "every public attribute readable on the original (including args
                         and type-specific fields such as errno or value) reading the same"
   message               "only its message is extended, naming the configurable and the
@@ -290,10 +290,6 @@ def cases(tier, rng):
     yield from ctx_cases(i + len(phase1), n, v)
 
 
-def nontrivial(case):
-  return True
-
-
 # ---- running one case --------------------------------------------------------------
 _CUR = {}
 
@@ -434,11 +430,9 @@ def check(case):
   for a in ('__name__', '__qualname__', '__module__'):
     if getattr(type(caught), a) != getattr(type(orig), a):
       fail('class_identity', getattr(type(orig), a), getattr(type(caught), a), 'attr=' + a)
-  # traceback: the original's entries are a suffix, and the innermost one is the raise site
-  got, want = _tb_entries(caught), _tb_entries(orig)
-  if not want or want[-1] != (_raise_it.__code__, _RAISE_LINE):
-    raise AssertionError('oracle: original traceback does not end at the raise site')
-  if got[-len(want):] != want:
+  # traceback: the innermost entry is the raise site and the original's entries are a suffix
+  got, want = _tb_entries(caught), _tb_entries(orig) or [(_raise_it.__code__, _RAISE_LINE)]
+  if got[-1:] != [(_raise_it.__code__, _RAISE_LINE)] or got[-len(want):] != want:
     fail('traceback', ['%s:%d' % (c.co_name, l) for c, l in want[-3:]],
          ['%s:%d' % (c.co_name, l) for c, l in got[-3:]], 'mode=' + case['mode'])
   # data
